@@ -3,7 +3,14 @@
 A part is a module tools/props/parts/<name>.py with THEOREMS, LEAN_MODULES,
 ASSUMPTIONS, tie(ctx) (same contract as a plugin's tie) and optionally
 TRUSTED_EXTRA / TRANSLATORS / MANIFEST_TEXT (a sentence for the claimed level)."""
-import importlib
+import importlib, os
+
+
+def _module_exists(m):
+    """A part may name a Lean module that another work-package has not delivered yet; importing a
+    missing module would make the audit of the delivered theorems fail to elaborate."""
+    lean = os.path.join(os.path.dirname(os.path.dirname(os.path.dirname(os.path.abspath(__file__)))), "lean")
+    return os.path.exists(os.path.join(lean, *m.split(".")) + ".lean")
 
 
 def load_parts(names):
@@ -25,7 +32,7 @@ def install(ns, pid, part_names, manifest):
     ns["REGISTERED"] = bool(parts)   # claimed as soon as one part exists; missing parts are named in the note
     ns["STATELESS"] = False
     ns["THEOREMS"] = [t for p in parts for t in p.THEOREMS]
-    ns["LEAN_MODULES"] = sorted({m for p in parts for m in p.LEAN_MODULES})
+    ns["LEAN_MODULES"] = sorted({m for p in parts for m in p.LEAN_MODULES if _module_exists(m)})
     ns["ASSUMPTIONS"] = [a for p in parts for a in getattr(p, "ASSUMPTIONS", [])]
     ns["TRUSTED_EXTRA"] = [a for p in parts for a in getattr(p, "TRUSTED_EXTRA", [])]
     tr = {}
